@@ -22,8 +22,52 @@ struct world
   ov_theory ov;
   idl_theory idl;
   rdl_theory rdl;
+  std::vector<lit> rets; // the literals returned by the lra.<relation> requests: `$k` / `!$k` in later operations
   world() : lra(sat), ov(sat), idl(sat), rdl(sat) { sat.verif_record = on_record; }
 };
+
+static bool is_rel_op(const std::string &op) { return op == "lra.lt" || op == "lra.leq" || op == "lra.eq" || op == "lra.geq" || op == "lra.gt"; }
+
+// replaces the `$k` / `!$k` tokens by the k-th returned literal / its negation, the `?j` / `!?j` tokens by the positive /
+// negative literal of the (j mod u)-th of the u currently unassigned SAT variables (ascending), and the `^j` tokens by the
+// LRA variable n-1-j (n = current number of LRA variables: `^0` is the newest)
+static void resolve_refs(const world &w, hv::toks &t)
+{
+  for (auto &tk : t.t)
+  {
+    const bool neg = tk.rfind("!$", 0) == 0, pos = tk.rfind("$", 0) == 0, rel = tk.rfind("^", 0) == 0;
+    const bool upos = tk.rfind("?", 0) == 0, uneg = tk.rfind("!?", 0) == 0;
+    if (!neg && !pos && !rel && !upos && !uneg)
+      continue;
+    const std::string num = tk.substr((neg || uneg) ? 2 : 1);
+    if (num.empty() || num.find_first_not_of("0123456789") != std::string::npos)
+      throw std::runtime_error("bad-op");
+    const size_t k = std::stoul(num);
+    if (rel)
+    {
+      if (k >= access::lra_nvars(w.lra))
+        throw std::runtime_error("bad-op");
+      tk = std::to_string(access::lra_nvars(w.lra) - 1 - k);
+    }
+    else if (upos || uneg)
+    {
+      std::vector<var> un;
+      const auto &as = access::assigns(w.sat);
+      for (size_t v = 0; v < as.size(); ++v)
+        if (as[v] == Undefined)
+          un.push_back(v);
+      if (un.empty())
+        throw std::runtime_error("bad-op");
+      tk = lit_str(lit(un[k % un.size()], upos));
+    }
+    else
+    {
+      if (k >= w.rets.size())
+        throw std::runtime_error("bad-op");
+      tk = lit_str(neg ? !w.rets[k] : w.rets[k]);
+    }
+  }
+}
 
 template <typename T>
 static void check_lin(const T &th, const lin &l)
@@ -118,6 +162,108 @@ static bool dl_exec(world &w, T &th, const std::string &op, hv::toks &t, std::st
   return true;
 }
 
+// coefficients and constants must be finite, coefficients non-zero, variables existing
+static void check_lra_lin(const lra_theory &th, const lin &l)
+{
+  for (const auto &[v, c] : l.vars)
+    if (v >= access::lra_nvars(th) || c.denominator() == 0 || c.numerator() == 0)
+      throw std::runtime_error("bad-op");
+  if (l.known_term.denominator() == 0)
+    throw std::runtime_error("bad-op");
+}
+
+static std::pair<lin, lin> lin_pair(hv::toks &t)
+{
+  lin a = t.linexp();
+  if (!t.done() && t.t[t.i] == ";")
+    t.i++;
+  lin b = t.linexp();
+  return {a, b};
+}
+
+static bool lra_exec(world &w, const std::string &op, hv::toks &t, std::string &res)
+{
+  lra_theory &th = w.lra;
+  if (op == "nv")
+  {
+    if (!t.done() || !w.sat.root_level())
+      throw std::runtime_error("bad-op");
+    res = std::to_string(th.new_var());
+  }
+  else if (op == "nvl" || op == "nvlraw")
+  {
+    lin a = t.linexp();
+    check_lra_lin(th, a);
+    bool basic = false;
+    for (const auto &[v, c] : a.vars)
+      basic = basic || th.is_basic(v);
+    if (a.vars.empty() || !w.sat.root_level())
+      res = "pre";
+    else if (op == "nvl" && basic) // new_var(lin) stores the expression as a row as it is (finding nvl-basic)
+      res = "pre:basic";
+    else
+      res = std::to_string(th.new_var(a));
+  }
+  else if (op == "lt" || op == "leq" || op == "geq" || op == "gt" || op == "eq")
+  {
+    auto [a, b] = lin_pair(t);
+    check_lra_lin(th, a);
+    check_lra_lin(th, b);
+    if (!w.sat.root_level())
+      res = "pre";
+    else
+      res = lit_str(op == "lt" ? th.new_lt(a, b) : op == "leq" ? th.new_leq(a, b) : op == "eq" ? th.new_eq(a, b) : op == "geq" ? th.new_geq(a, b) : th.new_gt(a, b));
+  }
+  else if (op == "val")
+  {
+    lin a = t.linexp();
+    check_lra_lin(th, a);
+    res = hv::show(th.value(a));
+  }
+  else if (op == "bounds")
+  {
+    lin a = t.linexp();
+    check_lra_lin(th, a);
+    const auto b = th.bounds(a);
+    res = hv::show(b.first) + " " + hv::show(b.second) + " " + hv::show(th.lb(a)) + " " + hv::show(th.ub(a));
+  }
+  else if (op == "eqs")
+  {
+    auto [a, b] = lin_pair(t);
+    check_lra_lin(th, a);
+    check_lra_lin(th, b);
+    res = hv::show(th.equates(a, b));
+  }
+  else if (op == "setlb" || op == "setub" || op == "set")
+  {
+    const size_t x = t.integer();
+    const inf_rational v = t.irat();
+    const lit p = hv::parse_lit(t.next());
+    if (x >= access::lra_nvars(th) || variable(p) >= access::nvars(w.sat) || v.get_rational().denominator() == 0 || v.get_infinitesimal().denominator() == 0)
+      throw std::runtime_error("bad-op");
+    // the reason must hold and belong to the current decision level (a conflict it takes part in is analysed there)
+    if (w.sat.value(p) != True || access::queue_size(w.sat) != 0 || access::level(w.sat)[variable(p)] != access::trail_lim(w.sat).size())
+      res = "pre";
+    else
+    {
+      const bool ok = op == "setlb" ? th.set_lb(x, v, p) : op == "setub" ? th.set_ub(x, v, p) : th.set(x, v, p);
+      if (ok)
+        res = "T";
+      else
+      {
+        res = "F C[";
+        const auto c = access::lra_cnfl(th);
+        for (size_t i = 0; i < c.size(); ++i)
+          res += (i ? " " : "") + lit_str(c[i]);
+        res += "]";
+      }
+    }
+  }
+  else
+    return false;
+  return true;
+}
+
 static I parse_i(hv::toks &t) { return t.integer(); }
 static inf_rational parse_ir(hv::toks &t) { return t.irat(); }
 
@@ -149,6 +295,7 @@ int main()
       if (!w)
         throw std::runtime_error("bad-op");
       sat_core &sat = w->sat;
+      resolve_refs(*w, t);
       if (op.rfind("idl.", 0) == 0)
       {
         if (!dl_exec(*w, w->idl, op.substr(4), t, res, parse_i))
@@ -158,6 +305,13 @@ int main()
       {
         if (!dl_exec(*w, w->rdl, op.substr(4), t, res, parse_ir))
           throw std::runtime_error("bad-op");
+      }
+      else if (op.rfind("lra.", 0) == 0)
+      {
+        if (!lra_exec(*w, op.substr(4), t, res))
+          throw std::runtime_error("bad-op");
+        if (is_rel_op(op) && (res[0] == '+' || res[0] == '-'))
+          w->rets.push_back(hv::parse_lit(res));
       }
       else if (op == "assume")
       {
@@ -212,6 +366,8 @@ int main()
           throw std::runtime_error("bad-op");
       }
       res += learnt + " | " + access::vals_str(sat) + " | " + access::search_str(sat) + " | idl " + access::dl_str(w->idl) + " | rdl " + access::dl_str(w->rdl);
+      if (access::lra_nvars(w->lra) > 0)
+        res += " | lra " + access::lra_str(w->lra);
     }
     catch (const std::exception &e)
     {
